@@ -188,91 +188,128 @@ GATES = [
 def r3_gates_agree(ctx) -> None:
     r, prog = ctx.r, ctx.prog
     r.rule("C13.R3", "the gate functions share one decision structure per condition group: expression → expr.<method>(target); else linking over the list of conditions' <method>(target); else Sigma error; then negation by the group's own flag; an empty condition group means 'applies'")
-    structs = {}
+    # every gate function interpreted (sa.tabulate, Proxy) over its truth table: evaluation mode (condition expression /
+    # linking any|all over the condition list / neither) x results of the conditions (none, one, two) x negation flag;
+    # stand-in conditions record which of their methods is asked about which object
+    import types as _types
+    from ..tabulate import Proxy, call_method, Raised
+
+    class SigmaPipelineConditionError(Exception):
+        def __init__(self, *a, **k): super().__init__(*a)
+
+    class SigmaFieldReference:
+        def __init__(self, field): self.field = field
+
+    env = {"SigmaPipelineConditionError": SigmaPipelineConditionError, "SigmaFieldReference": SigmaFieldReference}
+    IK = {"behaviours": (SigmaPipelineConditionError,), "max_steps": 6000}
+    METHODS = ("match", "match_detection_item", "match_field_name", "match_value")
+
+    def standin_condition(result, method, arg, log):
+        def mk(name):
+            def fn(x, *a, **k):
+                if name != method:
+                    log.append(f"condition asked through {name}() instead of {method}()")
+                    return not result
+                if not (x is arg or x == arg):
+                    log.append(f"{method}() asked about {x!r} instead of the gate's subject")
+                return result
+            return fn
+        return _types.SimpleNamespace(**{m_: mk(m_) for m_ in METHODS})
+
+    GROUPS = ("rule_condition", "detection_item_condition", "field_name_condition")
+    CONDS = {"rule_condition": "rule_conditions", "detection_item_condition": "detection_item_conditions", "field_name_condition": "field_name_conditions"}
+
+    def run_gate(fn, grp, conds_attr, em, cm, mode, results, neg, subject, expr_arg, cond_arg):
+        log: list[str] = []
+        attrs = {}
+        for g_ in GROUPS:  # the other groups: no conditions, linking all, no negation → they apply
+            attrs.update({f"{g_}_expression": None, f"{g_}_linking": all, CONDS[g_]: [], f"{g_}_negation": False})
+        cl = fn.split(".")[0]
+        if mode == "expression":
+            expr = standin_condition(results[0] if results else True, em, expr_arg, log)
+            attrs.update({f"{grp}_expression": expr, f"{grp}_linking": None, conds_attr: {f"c{i_}": object() for i_ in range(max(1, len(results)))}})
+            raw = results[0] if results else True
+            nonempty = True
+        elif mode in ("any", "all"):
+            attrs.update({f"{grp}_expression": None, f"{grp}_linking": any if mode == "any" else all, conds_attr: [standin_condition(x, cm, cond_arg, log) for x in results]})
+            raw = (any if mode == "any" else all)(results)
+            nonempty = bool(results)
+        else:
+            attrs.update({f"{grp}_expression": None, f"{grp}_linking": None, conds_attr: [standin_condition(x, cm, cond_arg, log) for x in results]})
+            raw, nonempty = None, bool(results)
+        attrs[f"{grp}_negation"] = neg
+        me = Proxy(prog, f"{PIPE}.{cl}", env, attrs, interp_kwargs=IK)
+        try:
+            got = call_method(prog, f"{PIPE}.{cl}", fn.split(".")[1], me, env, subject, interp_kwargs=IK)
+        except Raised as ex:
+            got = "error" if "SigmaPipelineConditionError" in str(ex) else f"<raises {ex}>"
+        want = "error" if mode == "neither" else ((not nonempty) or ((not raw) if neg else raw))
+        return got, want, log
+
+    subjects = {"rule": object(), "detection_item": _types.SimpleNamespace(field="f", value=[]), "field": "fname", "value": SigmaFieldReference("fname")}
     for fn, grp, conds, em, ea, cm, ca in GATES:
         f = prog.func(f"{PIPE}.{fn}")
-        key = f"{fn}[{grp}]"
-        loc = f.loc
-        ifs = [n for n in walk_no_nested(f.node) if isinstance(n, ast.If) and unparse(n.test) == f"self.{grp}_expression is not None"]
-        if len(ifs) != 1:
-            r.violation("C13.R3", f.qual, f"if self.{grp}_expression is not None", "expression branch of this gate not found", loc)
-            continue
-        i = ifs[0]
-        loc = f"{f.module.relpath}:{i.lineno}"
-        # expression branch
-        ecalls = [c for s in i.body for c in ast.walk(s) if isinstance(c, ast.Call) and call_name(c).startswith(f"self.{grp}_expression.")]
-        if len(ecalls) == 1 and call_name(ecalls[0]).endswith("." + em) and [unparse(a) for a in ecalls[0].args] == [ea]:
-            r.ok("C13.R3", f.qual, f"{grp}: expression.{em}({ea})", loc)
-        else:
-            r.violation("C13.R3", f.qual, f"{grp}: {short(ecalls[0], 80) if ecalls else 'no expression call'}", f"expression branch must evaluate self.{grp}_expression.{em}({ea})", loc)
-        # linking branch
-        el = i.orelse[0] if i.orelse and isinstance(i.orelse[0], ast.If) else None
-        want_test = f"self.{grp}_linking is not None and isinstance(self.{conds}, list)"
-        if el is None or unparse(el.test) != want_test:
-            r.violation("C13.R3", f.qual, f"{grp}: elif {unparse(el.test) if el is not None else None}", f"linking branch must be guarded by `{want_test}`", loc)
-        else:
-            lcalls = [c for s in el.body for c in ast.walk(s) if isinstance(c, ast.Call) and call_name(c) == f"self.{grp}_linking"]
-            okl = False
-            if len(lcalls) == 1 and lcalls[0].args and isinstance(lcalls[0].args[0], (ast.ListComp, ast.GeneratorExp)):
-                comp = lcalls[0].args[0]
-                g = comp.generators[0]
-                if unparse(g.iter) == f"self.{conds}" and not g.ifs and isinstance(comp.elt, ast.Call) \
-                        and call_name(comp.elt) == f"{unparse(g.target)}.{cm}" and [unparse(a) for a in comp.elt.args] == [ca]:
-                    okl = True
-            if okl:
-                r.ok("C13.R3", f.qual, f"{grp}: linking([c.{cm}({ca}) for c in {conds}])", f"{f.module.relpath}:{el.lineno}")
+        subject = subjects[{"rule": "rule", "detection_item": "detection_item", "field": "field", "value.field": "value"}[ea]]
+        expr_arg = subject.field if ea == "value.field" else subject
+        cond_arg = subject
+        bad = {"evaluation": [], "negation": [], "empty group": [], "error": []}
+        n = 0
+        for mode in ("expression", "any", "all", "neither"):
+            for results in ([], [True], [False], [True, False]):
+                if mode == "expression" and len(results) != 1:
+                    continue
+                for neg in (False, True):
+                    n += 1
+                    got, want, log = run_gate(fn, grp, conds, em, cm, mode, results, neg, subject, expr_arg, cond_arg)
+                    desc = f"mode {mode}, condition results {results}, negation flag {neg}"
+                    if log:
+                        bad["evaluation"].append(f"{desc}: {log[0]}")
+                    elif got != want:
+                        kind = "error" if mode == "neither" else "empty group" if not results else "negation" if neg else "evaluation"
+                        bad[kind].append(f"{desc}: {got!r} instead of {want!r}")
+        texts = {
+            "evaluation": (f"{grp}: expression.{em}({ea}) / linking([c.{cm}({ca}) for c in {conds}])", f"the gate must evaluate self.{grp}_expression.{em}({ea}), else link every condition of self.{conds} evaluated with {cm}({ca})"),
+            "negation": (f"{grp}: negation", f"the result of this group must be negated exactly when self.{grp}_negation is set"),
+            "empty group": (f"{grp}: no empty-group shortcut", "gate asymmetry: an empty condition group applies (`not <conditions> or result`), also when its negation flag is set: 'an item without conditions always applies'"),
+            "error": (f"{grp}: else branch", "missing expression and linking must raise SigmaPipelineConditionError"),
+        }
+        for kind, (what, why) in texts.items():
+            if bad[kind]:
+                r.violation("C13.R3", f.qual, f"{what}: {bad[kind][0]}", f"{len(bad[kind])} of {n} interpreted cases: {why}", f.loc)
             else:
-                r.violation("C13.R3", f.qual, f"{grp}: {short(lcalls[0], 100) if lcalls else 'no linking call'}", f"linking branch must evaluate every condition of self.{conds} with {cm}({ca})", f"{f.module.relpath}:{el.lineno}")
-            # error branch
-            if el.orelse and isinstance(el.orelse[0], ast.Raise) and "SigmaPipelineConditionError" in unparse(el.orelse[0]):
-                r.ok("C13.R3", f.qual, f"{grp}: neither expression nor linking → SigmaPipelineConditionError", f"{f.module.relpath}:{el.lineno}")
-            else:
-                r.violation("C13.R3", f.qual, f"{grp}: else branch", "missing expression and linking must raise SigmaPipelineConditionError", f"{f.module.relpath}:{el.lineno}")
-        # negation: the statement after the if
-        res_name = None
-        for s in i.body:
-            if isinstance(s, ast.Assign):
-                res_name = unparse(s.targets[0])
-        negs = [n for n in walk_no_nested(f.node) if isinstance(n, ast.If) and unparse(n.test) == f"self.{grp}_negation"]
-        neg_ok = False
-        for ng in negs:
-            if len(ng.body) == 1 and isinstance(ng.body[0], ast.Assign) and unparse(ng.body[0]) == f"{res_name} = not {res_name}" and ng.lineno > i.lineno and not ng.orelse:
-                neg_ok = True
-        if neg_ok:
-            r.ok("C13.R3", f.qual, f"{grp}: negated iff self.{grp}_negation, after evaluation", loc)
-        else:
-            r.violation("C13.R3", f.qual, f"{grp}: negation", f"the result of this group must be negated exactly when self.{grp}_negation is set (found tests: {[unparse(n.test) for n in walk_no_nested(f.node) if isinstance(n, ast.If) and 'negation' in unparse(n.test)]})", loc)
-        # empty shortcut
-        form = f"notself.{conds}or{res_name}".replace(" ", "")
-        shortcut = any((isinstance(x, ast.Return) and x.value is not None and unparse(x.value).replace(" ", "") == form)
-                       or (isinstance(x, ast.Assign) and unparse(x.targets[0]) == res_name and unparse(x.value).replace(" ", "") == form
-                           and all(x.lineno > ng.lineno for ng in negs))
-                       for x in walk_no_nested(f.node))
-        structs[key] = shortcut
-    if len(set(structs.values())) > 1:
-        have = [k for k, v in structs.items() if v]
-        lack = [k for k, v in structs.items() if not v]
-        for k in lack:
-            fn = k.split("[")[0]
-            f = prog.func(f"{PIPE}.{fn}")
-            r.violation("C13.R3", f.qual, f"{k}: no empty-group shortcut",
-                        f"gate asymmetry: {have} return `not <conditions> or result` (an empty group applies even when its negation flag is set), this gate does not: "
-                        f"an item with the group's negation flag set and no conditions in that group never applies here, although 'an item without conditions always applies'", f.loc)
-    elif structs:
-        r.ok("C13.R3", PIPE, f"all gates treat an empty condition group alike (shortcut={list(structs.values())[0]})")
-    # combination in match_detection_item
+                r.ok("C13.R3", f.qual, f"{what} — as specified in all {n} interpreted cases", f.loc)
+    # combination in match_detection_item: both groups must hold
     f = prog.func(PIPE + ".ProcessingItem.match_detection_item")
-    rets = [x for x in walk_no_nested(f.node) if isinstance(x, ast.Return)]
-    if len(rets) == 1 and unparse(rets[0].value) == "detection_item_cond_result and field_name_cond_result":
-        r.ok("C13.R3", f.qual, "detection-item group AND field-name group", f"{f.module.relpath}:{rets[0].lineno}")
+    combo = []
+    for a_ in (True, False):
+        for b_ in (True, False):
+            log: list[str] = []
+            di = subjects["detection_item"]
+            attrs = {f"{g_}_{k}": v for g_ in GROUPS for k, v in (("expression", None), ("linking", all), ("negation", False))}
+            attrs.update({"rule_conditions": [], "detection_item_conditions": [standin_condition(a_, "match", di, log)], "field_name_conditions": [standin_condition(b_, "match_detection_item", di, log)]})
+            try:
+                got = call_method(prog, PIPE + ".ProcessingItem", "match_detection_item", Proxy(prog, PIPE + ".ProcessingItem", env, attrs, interp_kwargs=IK), env, di, interp_kwargs=IK)
+            except Raised as ex:
+                got = f"<raises {ex}>"
+            if got is not (a_ and b_) or log:
+                combo.append(f"detection item group {a_}, field name group {b_}: {got!r}" + (f" ({log[0]})" if log else ""))
+    if not combo:
+        r.ok("C13.R3", f.qual, "detection-item group AND field-name group", f.loc)
     else:
-        r.violation("C13.R3", f.qual, stmt_head(rets[0]) if rets else "return", "the two groups must be combined by AND", f.loc)
+        r.violation("C13.R3", f.qual, f"return: {combo[0]}", "the two groups must be combined by AND", f.loc)
     f = prog.func(PIPE + ".ProcessingItem.match_field_in_value")
-    rets = [x for x in walk_no_nested(f.node) if isinstance(x, ast.Return) and unparse(x.value) == "False"]
-    if rets and ("isinstance(value, SigmaFieldReference)", False) in atomic_guards(guards_at(prog, f, rets[0])):
+    outs = []
+    for v in ("text", 5, None, _types.SimpleNamespace(field="fname")):
+        attrs = {f"{g_}_{k}": v2 for g_ in GROUPS for k, v2 in (("expression", None), ("linking", all), ("negation", False))}
+        attrs.update({"rule_conditions": [], "detection_item_conditions": [], "field_name_conditions": []})
+        try:
+            outs.append(call_method(prog, PIPE + ".ProcessingItem", "match_field_in_value", Proxy(prog, PIPE + ".ProcessingItem", env, attrs, interp_kwargs=IK), env, v, interp_kwargs=IK))
+        except Raised as ex:
+            outs.append(f"<raises {ex}>")
+    if all(o is False for o in outs):
         r.ok("C13.R3", f.qual, "non-reference values never match the field-in-value gate", f.loc)
     else:
-        r.violation("C13.R3", f.qual, "else: return False", "non-field-reference values must not pass the field-in-value gate", f.loc)
+        r.violation("C13.R3", f.qual, f"else: return False — non-reference values give {outs}", "non-field-reference values must not pass the field-in-value gate", f.loc)
     r.floor("C13.R3", 20)
 
 
@@ -333,37 +370,92 @@ def r4_expression_grammar(ctx) -> None:
 def r5_tables(ctx) -> None:
     r, prog = ctx.r, ctx.prog
     r.rule("C13.R5", "tables and defaults: expression evaluators delegate to the same-named method (and→all, or→any, not→not); YAML keys feed the attributes of their own group; 'or'→any/'and'→all; linking defaults to all only without an expression, for all three groups")
-    # evaluators
-    for cls, fns in (("ConditionIdentifier", ("match", "match_detection_item", "match_field_name")),):
-        for fn in fns:
-            f = prog.func(f"{CE}.{cls}.{fn}")
-            rets = [x for x in walk_no_nested(f.node) if isinstance(x, ast.Return)]
-            param = [p for p in f.params() if p != "self"][0]
-            okk = rets and all(isinstance(x.value, ast.Call) and call_name(x.value) == f"self._condition.{fn}" and [unparse(a) for a in x.value.args] == [param] for x in rets)
-            if okk:
-                r.ok("C13.R5", f.qual, f"→ self._condition.{fn}({param})", f.loc)
-            else:
-                r.violation("C13.R5", f.qual, stmt_head(rets[0]) if rets else "return", f"identifier evaluation must delegate to self._condition.{fn}({param}); another method decides differently for conditions that override it (field references, applied-item conditions)", f.loc)
+    # evaluators, interpreted (sa.tabulate, Proxy) on recording stand-in conditions
+    import types as _types
+    from ..tabulate import Proxy, call_method, Raised
+
+    class SigmaPipelineConditionError(Exception):
+        def __init__(self, *a, **k): super().__init__(*[str(x) for x in a])
+
+    class _Rec:
+        def __init__(self, result, log): self.result, self.log = result, log
+        def match(self, x): self.log.append(("match", x)); return self.result
+        def match_detection_item(self, x): self.log.append(("match_detection_item", x)); return self.result
+        def match_field_name(self, x): self.log.append(("match_field_name", x)); return self.result
+        def match_value(self, x): self.log.append(("match_value", x)); return self.result
+
+    class RuleProcessingCondition(_Rec): pass
+    class DetectionItemProcessingCondition(_Rec): pass
+    class FieldNameProcessingCondition(_Rec): pass
+    class SigmaRule: pass
+    class SigmaCorrelationRule: pass
+    class SigmaDetectionItem:
+        field, value, modifiers = "fname", [], []
+
+    env = {k: v for k, v in locals().items() if isinstance(v, type) and k[:1].isupper()}
+    IK = {"behaviours": (SigmaPipelineConditionError,), "max_steps": 4000}
+    CI = f"{CE}.ConditionIdentifier"
+    table = [
+        ("match", RuleProcessingCondition, SigmaRule(), True), ("match", RuleProcessingCondition, SigmaCorrelationRule(), True), ("match", DetectionItemProcessingCondition, SigmaDetectionItem(), True),
+        ("match", RuleProcessingCondition, SigmaDetectionItem(), False), ("match", DetectionItemProcessingCondition, SigmaRule(), False), ("match", FieldNameProcessingCondition, SigmaDetectionItem(), False),
+        ("match_detection_item", FieldNameProcessingCondition, SigmaDetectionItem(), True), ("match_detection_item", DetectionItemProcessingCondition, SigmaDetectionItem(), False),
+        ("match_field_name", FieldNameProcessingCondition, "fname", True), ("match_field_name", FieldNameProcessingCondition, None, True), ("match_field_name", RuleProcessingCondition, "fname", False),
+    ]
     for fn in ("match", "match_detection_item", "match_field_name"):
-        f = prog.func(f"{CE}.BinaryConditionOp.{fn}")
-        param = [p for p in f.params() if p != "self"][0]
-        src = unparse(f.node).replace(" ", "").replace("\n", "")
-        if f"self.__class__._function([self.left.{fn}({param}),self.right.{fn}({param})])" in src:
-            r.ok("C13.R5", f.qual, f"_function([left.{fn}, right.{fn}])", f.loc)
+        f = prog.func(f"{CI}.{fn}")
+        bad = []
+        for m_, K, subject, admitted in table:
+            if m_ != fn:
+                continue
+            for result in (True, False):
+                log: list = []
+                me = Proxy(prog, CI, env, {"_condition": K(result, log), "identifier": "c", "expression": "c", "location": 0}, interp_kwargs=IK)
+                try:
+                    got = call_method(prog, CI, fn, me, env, subject, interp_kwargs=IK)
+                except Raised as ex:
+                    got = "error" if "SigmaPipelineConditionError" in str(ex) else f"<raises {ex}>"
+                if admitted and not (got is result and log == [(fn, subject)]):
+                    bad.append(f"{K.__name__} on {type(subject).__name__}: answer {got!r}, calls {[(a, type(b).__name__) for a, b in log]}; expected the condition's own {fn}() answer {result}")
+                if not admitted and got != "error":
+                    bad.append(f"{K.__name__} on {type(subject).__name__}: {got!r} instead of SigmaPipelineConditionError")
+        if not bad:
+            r.ok("C13.R5", f.qual, f"→ the resolved condition's {fn}(subject) for the condition kinds that fit, SigmaPipelineConditionError otherwise (interpreted)", f.loc)
         else:
-            r.violation("C13.R5", f.qual, f"BinaryConditionOp.{fn}", f"binary node must combine left.{fn}({param}) and right.{fn}({param}) with the class function", f.loc)
+            r.violation("C13.R5", f.qual, f"return: {bad[0]}", f"identifier evaluation must delegate to self._condition.{fn}(…); another method decides differently for conditions that override it (field references, applied-item conditions)", f.loc)
+    for fn in ("match", "match_detection_item", "match_field_name"):
+        subject = SigmaDetectionItem() if fn != "match_field_name" else "fname"
+        for cn, fun in (("ConditionAND", all), ("ConditionOR", any)):
+            f = prog.lookup_method(f"{CE}.{cn}", fn)
+            bad = []
+            for a_ in (True, False):
+                for b_ in (True, False):
+                    log: list = []
+                    me = Proxy(prog, f"{CE}.{cn}", env, {"left": _Rec(a_, log), "right": _Rec(b_, log), "location": 0}, interp_kwargs=IK)
+                    try:
+                        got = call_method(prog, f"{CE}.{cn}", fn, me, env, subject, interp_kwargs=IK)
+                    except Raised as ex:
+                        got = f"<raises {ex}>"
+                    if got is not fun([a_, b_]) or any(m_ != fn or x is not subject for m_, x in log):
+                        bad.append(f"{a_} {cn[9:].lower()} {b_}: {got!r}, operands asked through {[m_ for m_, _ in log]}")
+            if not bad:
+                r.ok("C13.R5", f.qual if f else f"{CE}.{cn}", f"{cn}.{fn}: {fun.__name__}([left.{fn}, right.{fn}])", f.loc if f else "")
+            else:
+                r.violation("C13.R5", f.qual if f else f"{CE}.{cn}", f"{cn}.{fn}: {bad[0]}", f"binary node must combine left.{fn}(…) and right.{fn}(…) with {fun.__name__}()", f.loc if f else "")
         f = prog.func(f"{CE}.ConditionNOT.{fn}")
-        if unparse(f.node.body[-1]) == f"return not self.condition.{fn}({param})":
-            r.ok("C13.R5", f.qual, f"not condition.{fn}", f.loc)
+        bad = []
+        for a_ in (True, False):
+            log = []
+            me = Proxy(prog, f"{CE}.ConditionNOT", env, {"condition": _Rec(a_, log), "location": 0}, interp_kwargs=IK)
+            try:
+                got = call_method(prog, f"{CE}.ConditionNOT", fn, me, env, subject, interp_kwargs=IK)
+            except Raised as ex:
+                got = f"<raises {ex}>"
+            if got is not (not a_):
+                bad.append(f"not {a_}: {got!r}")
+        if not bad:
+            r.ok("C13.R5", f.qual, f"not condition.{fn} (for a condition that answers alike for every name)", f.loc)
         else:
-            r.violation("C13.R5", f.qual, unparse(f.node.body[-1]), f"NOT node must return `not self.condition.{fn}({param})`", f.loc)
-    for cn, fun in (("ConditionAND", "all"), ("ConditionOR", "any")):
-        a = prog.lookup_class_attr(f"{CE}.{cn}", "_function")
-        v = unparse(a[1].value) if a and getattr(a[1], "value", None) is not None else None
-        if v == fun and a[0].qual.endswith(cn):
-            r.ok("C13.R5", f"{CE}.{cn}", f"_function = {fun}", f"{a[0].module.relpath}:{a[1].lineno}")
-        else:
-            r.violation("C13.R5", f"{CE}.{cn}", f"_function = {v}", f"{cn} must evaluate with {fun}()")
+            r.violation("C13.R5", f.qual, f"ConditionNOT.{fn}: {bad[0]}", f"NOT node must return the negation of its operand's {fn}()", f.loc)
     # YAML key tables
     b = prog.func(PIPE + ".ProcessingItemBase._base_args_from_dict")
     fd = prog.func(PIPE + ".ProcessingItem.from_dict")
@@ -399,16 +491,52 @@ def r5_tables(ctx) -> None:
     else:
         r.violation("C13.R5", pl.qual, unparse(tabs[0]) if tabs else "linking table", "linking table must map 'or'→any, 'and'→all, absent→None", pl.loc)
     ck = prog.func(PIPE + ".ProcessingItemBase._check_conditions")
-    sets = [c for c in walk_no_nested(ck.node) if isinstance(c, ast.Call) and call_name(c) == "self.__setattr__" and unparse(c.args[0]) == "linking_attr"]
-    okd = False
-    for c in sets:
-        gs = atomic_guards(guards_at(prog, ck, c))
-        if unparse(c.args[1]) == "all" and ("expr is not None", False) in gs and ("self.__getattribute__(linking_attr) is None", True) in gs:
-            okd = True
-    if okd:
-        r.ok("C13.R5", ck.qual, "linking defaults to all only without expression and without explicit linking", ck.loc)
+    # _check_conditions interpreted (sa.tabulate, Proxy) over (expression given?, linking given?, conditions as list / dict / other)
+
+    class SigmaTypeError(Exception):
+        def __init__(self, *a, **k): super().__init__(*a)
+
+    class _K:
+        pass
+
+    envc = {"SigmaPipelineConditionError": SigmaPipelineConditionError, "SigmaTypeError": SigmaTypeError}
+    IKc = {"behaviours": (SigmaPipelineConditionError, SigmaTypeError), "max_steps": 4000}
+    PB = PIPE + ".ProcessingItemBase"
+    k1, k2 = _K(), _K()
+    cases = [
+        ("no expression, no linking, list", None, None, [k1, k2], (all, [k1, k2], None)),
+        ("no expression, linking any, list", None, any, [k1], (any, [k1], None)),
+        ("no expression, no linking, mapping", None, None, {"a": k1, "b": k2}, (all, [k1, k2], None)),
+        ("no expression, no linking, no conditions", None, None, [], (all, [], None)),
+        ("expression, no linking, mapping", "a and b", None, {"a": k1, "b": k2}, (None, {"a": k1, "b": k2}, None)),
+        ("expression and linking", "a", all, {"a": k1}, (None, None, "SigmaPipelineConditionError")),
+        ("expression, conditions as list", "a", None, [k1], (None, None, "SigmaPipelineConditionError")),
+        ("conditions of another type", None, None, "text", (None, None, "SigmaTypeError")),
+        ("a condition of another class", None, None, [k1, object()], (None, None, "SigmaTypeError")),
+    ]
+    badc = []
+    for what, expr, linking, conds, (want_l, want_c, want_err) in cases:
+        me = Proxy(prog, PB, envc, {"e": expr, "l": linking, "c": conds}, interp_kwargs=IKc)
+        try:
+            call_method(prog, PB, "_check_conditions", me, envc, "e", "l", "c", _K, "Test condition", interp_kwargs=IKc)
+            err = None
+        except Raised as ex:
+            err = str(ex)
+        if want_err is not None:
+            if err is None or want_err not in err:
+                badc.append(f"{what}: {'no error' if err is None else err} instead of {want_err}")
+            continue
+        a = me.attrs()
+        if err is not None:
+            badc.append(f"{what}: raises {err}")
+        elif a.get("l") is not want_l:
+            badc.append(f"{what}: linking becomes {getattr(a.get('l'), '__name__', a.get('l'))!r} instead of {getattr(want_l, '__name__', want_l)!r}")
+        elif a.get("c") != want_c:
+            badc.append(f"{what}: conditions become {a.get('c')!r}")
+    if not badc:
+        r.ok("C13.R5", ck.qual, f"linking defaults to all only without expression and without explicit linking; mappings become lists without expression; expression excludes linking and needs a mapping; wrong types are refused ({len(cases)} interpreted cases)", ck.loc)
     else:
-        r.violation("C13.R5", ck.qual, "self.__setattr__(linking_attr, all)", "default linking must be `all`, set only when no expression and no linking is configured", ck.loc)
+        r.violation("C13.R5", ck.qual, f"self.__setattr__(linking_attr, all): {badc[0]}", "default linking must be `all`, set only when no expression and no linking is configured (and the other normalisations/refusals of the condition group must stay)", ck.loc)
     triples = {("rule_condition_expression", "rule_condition_linking", "rule_conditions"): PIPE + ".ProcessingItemBase.__post_init__",
                ("detection_item_condition_expression", "detection_item_condition_linking", "detection_item_conditions"): PIPE + ".ProcessingItem.__post_init__",
                ("field_name_condition_expression", "field_name_condition_linking", "field_name_conditions"): PIPE + ".ProcessingItem.__post_init__"}
@@ -633,26 +761,46 @@ def r11_negation_per_name(ctx) -> None:
     holds for one of them' — the per-name gates (match_field_name / match_field_in_value) negate per name."""
     r, prog = ctx.r, ctx.prog
     r.rule("C13.R11", "negation of field name conditions is applied per field name: no `not` is applied to the any-name result of match_detection_item (ProcessingItem.match_detection_item's negation flag, ConditionNOT.match_detection_item)")
-    n = 0
+    # both interpreted (sa.tabulate, Proxy) on a detection item `keep|fieldref: other` with the field name condition
+    # "name is keep", negated: the negated condition holds for the name `other`, so the item-level gate must let it pass
+    import types as _types
+    from ..tabulate import Proxy, call_method, Raised
     pi = prog.func("sigma.processing.pipeline.ProcessingItem.match_detection_item")
-    for st in walk_no_nested(pi.node):
-        if isinstance(st, ast.Assign) and unparse(st.targets[0]) == "field_name_cond_result" and isinstance(st.value, ast.UnaryOp) and isinstance(st.value.op, ast.Not):
-            n += 1
-            defs = [unparse(v) for v in assignments_to(pi.node, "field_name_cond_result") if isinstance(v, ast.AST)]
-            if any("match_detection_item(" in d for d in defs):
-                r.violation("C13.R11", pi.qual, unparse(st) + "  [field_name_condition_negation]",
-                            "the negation flag is applied to 'condition holds for the field OR for a referenced field': with include_fields [keep] + field_name_cond_not the item `keep|fieldref: other` is rejected by this pre-gate although the negated condition holds for `other` (the per-name gates would map it) — equivalent spellings (exclude_fields) behave differently", f"{pi.module.relpath}:{st.lineno}")
-            else:
-                r.ok("C13.R11", pi.qual, "negation applied to a per-name result", f"{pi.module.relpath}:{st.lineno}")
+    cond = _types.SimpleNamespace(match_detection_item=lambda item: any(nm == "keep" for nm in item.names), match_field_name=lambda nm: nm == "keep",
+                                  match=lambda item: True, match_value=lambda v: getattr(v, "field", None) == "keep")
+    item = _types.SimpleNamespace(field="keep", names=["keep", "other"], value=[_types.SimpleNamespace(field="other")])
+    only_keep = _types.SimpleNamespace(field="keep", names=["keep"], value=[])
+    PI = "sigma.processing.pipeline.ProcessingItem"
+    env = {"SigmaPipelineConditionError": type("SigmaPipelineConditionError", (Exception,), {}), "any": any, "all": all}
+    attrs = {"detection_item_condition_expression": None, "detection_item_condition_linking": all, "detection_item_conditions": [], "detection_item_condition_negation": False,
+             "field_name_condition_expression": None, "field_name_condition_linking": any, "field_name_conditions": [cond], "field_name_condition_negation": True}
+    try:
+        mixed = call_method(prog, PI, "match_detection_item", Proxy(prog, PI, env, dict(attrs), interp_kwargs={"max_steps": 4000}), env, item, interp_kwargs={"max_steps": 4000})
+        alone = call_method(prog, PI, "match_detection_item", Proxy(prog, PI, env, dict(attrs), interp_kwargs={"max_steps": 4000}), env, only_keep, interp_kwargs={"max_steps": 4000})
+    except Raised as ex:
+        raise AnalysisError(f"{pi.qual}: raises {ex} on the stand-in item")
+    if alone is not False:
+        r.violation("C13.R11", pi.qual, f"negated field name condition on an item whose only name satisfies the condition: {alone!r}", "the negation flag is not applied", pi.loc)
+    elif mixed is True:
+        r.ok("C13.R11", pi.qual, "negation applied to a per-name result (interpreted: `keep|fieldref: other` passes the negated include-list gate)", pi.loc)
+    else:
+        r.violation("C13.R11", pi.qual, "field_name_cond_result = not field_name_cond_result  [field_name_condition_negation]",
+                    "the negation flag is applied to 'condition holds for the field OR for a referenced field': with include_fields [keep] + field_name_cond_not the item `keep|fieldref: other` is rejected by this pre-gate although the negated condition holds for `other` (the per-name gates would map it) — equivalent spellings (exclude_fields) behave differently", pi.loc)
     cn = prog.func("sigma.processing.condition_expressions.ConditionNOT.match_detection_item")
-    n += 1
-    if any(isinstance(x, ast.UnaryOp) and isinstance(x.op, ast.Not) and "match_detection_item(" in unparse(x.operand) for x in walk_no_nested(cn.node)):
+    CN = "sigma.processing.condition_expressions.ConditionNOT"
+    try:
+        mixed = call_method(prog, CN, "match_detection_item", Proxy(prog, CN, {}, {"condition": cond, "location": 0}, interp_kwargs={"max_steps": 2000}), {}, item, interp_kwargs={"max_steps": 2000})
+        alone = call_method(prog, CN, "match_detection_item", Proxy(prog, CN, {}, {"condition": cond, "location": 0}, interp_kwargs={"max_steps": 2000}), {}, only_keep, interp_kwargs={"max_steps": 2000})
+    except Raised as ex:
+        raise AnalysisError(f"{cn.qual}: raises {ex} on the stand-in item")
+    if alone is not False:
+        r.violation("C13.R11", cn.qual, f"`not c` on an item whose only name satisfies c: {alone!r}", "the expression negation is not applied", cn.loc)
+    elif mixed is True:
+        r.ok("C13.R11", cn.qual, "expression negation is evaluated per field name", cn.loc)
+    else:
         r.violation("C13.R11", cn.qual, "return not self.condition.match_detection_item(detection_item)",
                     "`not c` in a field name condition expression negates the any-name result of c for the whole detection item (same defect as the negation flag)", cn.loc)
-    else:
-        r.ok("C13.R11", cn.qual, "expression negation is evaluated per field name", cn.loc)
-    if n < 2:
-        raise AnalysisError("C13.R11: negation sites not found")
+
     r.floor("C13.R11", 2)
 
 
